@@ -45,6 +45,10 @@ MODELS = {
                                    'CONSTANTS FRank = 3\nFDepth = 2\nFMutant = "forward-perm"\n', "violates:FusionClosed"),
     "Fusion:forward-perm-2d-indistinguishable": ("Fusion", 'SPECIFICATION FSpec\nINVARIANT FusionClosed\nINVARIANT ProvenanceKept\n'
                                                  'CHECK_DEADLOCK FALSE\nCONSTANTS FRank = 2\nFDepth = 2\nFMutant = "forward-perm"\n', "holds"),
+    "Blelloch:plan": ("Blelloch", 'SPECIFICATION BSpec\nINVARIANT PrefixesExact\nINVARIANT NeverTwice\nINVARIANT OnlyEarlier\nCHECK_DEADLOCK FALSE\n'
+                      'CONSTANTS BNMax = 40\nBMutant = "none"\n', "holds"),
+    "Blelloch:floor-stride-mutant": ("Blelloch", 'SPECIFICATION BSpec\nINVARIANT PrefixesExact\nCHECK_DEADLOCK FALSE\n'
+                                     'CONSTANTS BNMax = 40\nBMutant = "floor-stride"\n', "violates:PrefixesExact"),
     "MapBlocksInfo:exact": ("MC_MapBlocksInfo", 'SPECIFICATION MBSpec\nINVARIANT SeenOnGrid\nINVARIANT Exact\nCHECK_DEADLOCK FALSE\n'
                             'CONSTANTS MBLayouts <- MCLayouts\nMBRecs <- MCRecs\n', "holds"),
 }
